@@ -20,6 +20,13 @@ type stringRange struct {
 }
 
 func (lt Ltag) Language(i uint16) language.Language {
+	if int(i) >= len(lt.tagRange) { // absent table, or invalid index (it comes from a 'morx' feature setting)
+		return ""
+	}
 	r := lt.tagRange[i]
-	return language.NewLanguage(string(lt.stringData[r.offset : r.offset+r.length]))
+	start, end := int(r.offset), int(r.offset)+int(r.length)
+	if end > len(lt.stringData) {
+		return ""
+	}
+	return language.NewLanguage(string(lt.stringData[start:end]))
 }
